@@ -1,7 +1,7 @@
 (* run_line: one case line in, one result line out.  Evaluated by the extracted OCaml driver
    (volume) and inside coqc by vm_compute (cross-check of extraction and driver). *)
 From Coq Require Import Strings.String.
-From BP7 Require Import Base.Prelude Base.Decimal Model.Hex Model.DtnTime Run.Proto.
+From BP7 Require Import Base.Prelude Base.Decimal Model.Hex Model.DtnTime Cbor.Item Spec.CrcSpec Spec.Rfc9171 Model.Types Model.Encode Model.Decode Run.Proto Run.BundleIO Run.RunClock.
 
 Definition show_res {A} (show : A -> list byte) (r : res A) : list byte :=
   match r with
@@ -52,6 +52,62 @@ Definition run_now (m : ovf_mode) (args : list tok) : list byte :=
   | _ => bad_case
   end.
 
+(* ---- K-dec / K-enc / K-crc ---- *)
+Definition run_dec (args : list tok) : list byte :=
+  match args with
+  | [t] => match get_bytes t with Some bs => show_res show_bundle (from_cbor bs) | None => bad_case end
+  | _ => bad_case
+  end.
+Definition run_enc (args : list tok) : list byte :=
+  match parse_bundle args with
+  | Some (b, []) => let '(bs, b') := to_cbor b in join [S_ "OK"; show_bytes bs; show_bundle b']
+  | _ => bad_case
+  end.
+Definition run_crcv (args : list tok) : list byte :=
+  match args with
+  | [t] => match get_bytes t with
+           | Some bs => show_res show_bool (rmap crc_valid (from_cbor bs))
+           | None => bad_case end
+  | _ => bad_case
+  end.
+
+(* RT <bundle>: encode, decode the bytes, encode the stored-CRC bundle again *)
+Definition run_rt (args : list tok) : list byte :=
+  match parse_bundle args with
+  | Some (b, []) =>
+      let '(bs, b') := to_cbor b in
+      let '(bs2, _) := to_cbor b' in
+      join [S_ "OK"; show_bytes bs; show_bundle b'; S_ "DECODED"; show_res show_bundle (from_cbor bs); S_ "AGAIN"; show_bytes bs2]
+  | _ => bad_case
+  end.
+(* SPEC <bundle>: the RFC 9171 specification encoder (compared with the implementation's to_cbor) *)
+Definition run_spec (args : list tok) : list byte :=
+  match parse_bundle args with
+  | Some (b, []) => join [S_ "OK"; show_bytes (rfc_bytes b)]
+  | _ => bad_case
+  end.
+(* DECRT x<bytes>: decode, CRC check, re-encode *)
+Definition run_decrt (args : list tok) : list byte :=
+  match args with
+  | [t] => match get_bytes t with
+           | Some bs => match from_cbor bs with
+                        | Ok b => join [S_ "OK"; show_bundle b; S_ "V"; show_bool (crc_valid b); S_ "RE"; show_bytes (fst (to_cbor b))]
+                        | Err _ => S_ "ERR" | Panic _ => S_ "PANIC"
+                        end
+           | None => bad_case end
+  | _ => bad_case
+  end.
+Definition run_crc16 (args : list tok) : list byte :=
+  match args with
+  | [t] => match get_bytes t with Some bs => join [S_ "OK"; show_N (crc16_x25 bs)] | None => bad_case end
+  | _ => bad_case
+  end.
+Definition run_crc32 (args : list tok) : list byte :=
+  match args with
+  | [t] => match get_bytes t with Some bs => join [S_ "OK"; show_N (crc32c bs)] | None => bad_case end
+  | _ => bad_case
+  end.
+
 Definition run_cmd (m : ovf_mode) (cmd : tok) (args : list tok) : list byte :=
   if tok_is cmd "HEX" then run_hex args
   else if tok_is cmd "UNHEX" then run_unhex args
@@ -59,6 +115,16 @@ Definition run_cmd (m : ovf_mode) (cmd : tok) (args : list tok) : list byte :=
   else if tok_is cmd "TSTR" then run_tstr args
   else if tok_is cmd "TSFMT" then run_tsfmt args
   else if tok_is cmd "NOW" then run_now m args
+  else if tok_is cmd "SCHED" then run_sched args
+  else if tok_is cmd "SCHEDP" then run_sched_pinned args
+  else if tok_is cmd "DEC" then run_dec args
+  else if tok_is cmd "ENC" then run_enc args
+  else if tok_is cmd "CRCV" then run_crcv args
+  else if tok_is cmd "RT" then run_rt args
+  else if tok_is cmd "SPEC" then run_spec args
+  else if tok_is cmd "DECRT" then run_decrt args
+  else if tok_is cmd "CRC16" then run_crc16 args
+  else if tok_is cmd "CRC32" then run_crc32 args
   else bad_case.
 
 (* an optional first token D / R selects the overflow mode of the build the line is compared with *)
